@@ -175,16 +175,17 @@ static int _upipe_setattr_get_dict(struct upipe *upipe, struct uref **dict_p)
 static int _upipe_setattr_set_dict(struct upipe *upipe, struct uref *dict)
 {
     struct upipe_setattr *upipe_setattr = upipe_setattr_from_upipe(upipe);
-    if (upipe_setattr->dict != NULL)
-        uref_free(upipe_setattr->dict);
+    struct uref *dup = NULL;
     if (dict != NULL) {
-        upipe_setattr->dict = uref_dup(dict);
-        if (upipe_setattr->dict == NULL) {
+        dup = uref_dup(dict);
+        if (dup == NULL) {
             upipe_throw_fatal(upipe, UBASE_ERR_ALLOC);
             return UBASE_ERR_ALLOC;
         }
-    } else
-        upipe_setattr->dict = NULL;
+    }
+    if (upipe_setattr->dict != NULL)
+        uref_free(upipe_setattr->dict);
+    upipe_setattr->dict = dup;
     return UBASE_ERR_NONE;
 }
 
